@@ -262,7 +262,7 @@ fn valid_for(flag: &str, rng: &mut StdRng) -> String {
         f if f.contains("input-format") || f == "--format" => pick(rng, &["semver", "pep440", "auto"]),
         "--source" => pick(rng, &["none", "stdin"]),
         "--schema-ron" => "(core:[var(Major),var(Minor)],extra_core:[var(Post)],build:[var(BumpedBranch)])".into(),
-        "--schema" => pick(rng, &["standard", "standard-base-prerelease-post-dev", "standard-context", "calver"]),
+        "--schema" => pick(rng, crate::pipe::PRESETS),          // every preset name (flow refuses the ones it does not support: a clean error)
         f if f.contains("label") => pick(rng, &["alpha", "beta", "rc"]),
         "--branch-rules" => "[(pattern:\"main\",pre_release_label:rc,pre_release_num:1,post_mode:tag)]".into(),
         f if f.contains("template") => pick(rng, &["{{ major }}.{{ minor }}", "{{ semver }}", "v{{ pep440 }}"]),
